@@ -38,10 +38,18 @@ pub mod security {
     impl ImportedKey {
         pub uninterp spec fn key(&self) -> Seq<u8>;
         #[verifier::external_body]
-        pub fn verify(&self, data: &[u8; 32], signature: &Vec<u8>) -> (r: std::result::Result<(), Error>)
+        pub fn verify(&self, data: &[u8], signature: &Vec<u8>) -> (r: std::result::Result<(), Error>)
             ensures r is Ok ==> super::sig_ok(self.key(), data@, signature@)
         { unimplemented!() }
     }
+    /// blake3::hash (plain mode: the mode that digests rows)
+    pub uninterp spec fn spec_plain_hash(bytes: Seq<u8>) -> Seq<u8>;
+    #[verifier::external_body]
+    pub fn hash(bytes: &[u8]) -> (r: [u8; 32]) ensures r@ == spec_plain_hash(bytes@) { unimplemented!() }
+    /// blake3::derive_key (key-derivation mode; separated by construction from the plain hash mode that digests rows)
+    pub uninterp spec fn spec_derive(context: Seq<char>, key_material: Seq<u8>) -> Seq<u8>;
+    #[verifier::external_body]
+    pub fn derive_key(context: &str, key_material: &[u8]) -> (r: [u8; 32]) ensures r@ == spec_derive(context@, key_material@) { unimplemented!() }
     #[verifier::external_body]
     pub fn import_verifying_key(veriying_key: &Vec<u8>) -> (r: std::result::Result<Box<ImportedKey>, Error>)
         ensures r is Ok ==> r->Ok_0.key() == veriying_key@
@@ -63,12 +71,24 @@ impl Node {
     pub fn clone(&self) -> (r: Node) ensures r == *self { unimplemented!() }
 }
 pub struct IdentityAnswer { pub peer: Node, pub chall_signature: Vec<u8> }
-impl IdentityAnswer {
-    #[verifier::external_body]
-    pub fn verify(&self, challenge: &Vec<u8>) -> (r: std::result::Result<(), security::Error>)
-        ensures r is Ok ==> sig_ok(self.peer.verifying_key@, challenge@, self.chall_signature@)
-    { unimplemented!() }
-}
+//@ extract src/synchronisation/mod.rs :: const IDENTITY_CHALLENGE_CONTEXT
+//@ end
+/// the message signed and verified for an identity challenge: blake3's key-derivation mode under the handshake context
+pub open spec fn identity_message(challenge: Seq<u8>) -> Seq<u8> { security::spec_derive(IDENTITY_CHALLENGE_CONTEXT@, challenge) }
+//@ extract src/synchronisation/mod.rs :: fn identity_challenge_message
+//@ result r
+//@ spec
+    ensures
+        // [identity_message_is_domain_separated]{C06,C19} the bytes signed for the handshake are derived from the remote side's bytes in blake3's key-derivation mode, never those bytes themselves
+        r@ == identity_message(challenge@),
+//@ end
+//@ extract src/synchronisation/mod.rs :: impl IdentityAnswer / fn verify
+//@ result r
+//@ spec
+        ensures
+            // [identity_answer_checked_over_the_derived_message]{C19,C06} an identity answer is accepted only if its signature verifies, under the key it states, over the message derived from THIS challenge
+            r is Ok ==> sig_ok(self.peer.verifying_key@, identity_message(challenge@), self.chall_signature@),
+//@ end
 pub uninterp spec fn peer_row_valid(n: Node) -> bool;
 pub struct Peer { pub id: String, pub verifying_key: String }
 impl Peer {
@@ -126,7 +146,7 @@ impl LocalPeerService {
 }
 /// what must have been established before the connection is treated as the peer `proof.peer.verifying_key`
 pub open spec fn identity_proved(proof: IdentityAnswer, challenge: Seq<u8>) -> bool {
-    sig_ok(proof.peer.verifying_key@, challenge, proof.chall_signature@) && peer_row_valid(proof.peer)
+    sig_ok(proof.peer.verifying_key@, identity_message(challenge), proof.chall_signature@) && peer_row_valid(proof.peer)
 }
 
 //@ extract src/synchronisation/peer_inbound_service.rs :: impl LocalPeerService / fn initialise_connection
